@@ -134,9 +134,14 @@ def render(e, rng, redundant=0.0):
 
 OPERANDS = [("num", "0"), ("num", "1"), ("num", "2"), ("num", "7"), ("num", "0.1"), ("num", "3.5"), ("num", "100"),
             ("str", b""), ("str", b"A"), ("str", b"B"), ("str", b"AB"), ("var", "U"), ("var", "V"), ("var", "N0"),
-            ("var", "S$"), ("var", "E$"), ("var", "U$"), ("num", "12345678901234567890"), ("num", ".5")]
-ENV_SETUP = ["V = 3", "N0 = 0 * -1", 'S$ = "HI"', 'E$ = ""']
-ENV = {"V": 3.0, "N0": -0.0, "S$": b"HI", "E$": b""}
+            ("var", "S$"), ("var", "E$"), ("var", "U$"), ("num", "12345678901234567890"), ("num", ".5"),
+            ("num", ".00000000000000001"), ("var", "Q")]
+ENV_SETUP = ["V = 3", "N0 = 0 * -1", 'S$ = "HI"', 'E$ = ""', "Q = .1 + .2 - .3"]
+ENV = {"V": 3.0, "N0": -0.0, "S$": b"HI", "E$": b"", "Q": 0.1 + 0.2 - 0.3}
+# boundary operands for the arithmetic / comparison operators: zeros of both signs, values far below
+# machine epsilon, the largest finite magnitudes, an integer beyond 2^53
+BOUNDARY = [("num", "0"), ("var", "N0"), ("num", ".00000000000000001"), ("var", "Q"), ("num", "1" + "0" * 308),
+            ("num", "9007199254740993"), ("num", ".5"), ("num", "3"), ("num", "." + "0" * 320 + "1")]
 
 
 def gen_expr(rng, depth):
@@ -231,6 +236,16 @@ def run_c02(chk):
                     one(e, txt)
                     chk.case(txt, sample={"expr": txt})
     chk.count("exhaustive-operator-pairs", count[0])
+    # every binary operator on every pair of boundary operands (and under a unary minus)
+    c0 = count[0]
+    for o1, _ in BINOPS:
+        for a in BOUNDARY:
+            for b in BOUNDARY:
+                for e in (("bin", o1, a, b), ("bin", o1, ("un", "-", a), b)):
+                    txt = render(e, rng)
+                    one(e, txt)
+                    chk.case(txt, sample={"expr": txt})
+    chk.count("boundary-operand-pairs", count[0] - c0)
     n = 1200 if chk.tier == "quick" else 60000
     for i in range(n):
         r = rng.fork(("c02", i))
